@@ -160,6 +160,34 @@ def run(ctx: core.Ctx):
                 if not ok or not np.allclose(np.asarray(r1), np.asarray(r2), equal_nan=True):
                     ctx.fail("zonal.mean", dict(data=data.tolist(), zones=zones.tolist(), zone=k, step=ti), np.asarray(r1)[ti, k].tolist(),
                              [None if v.size == 0 else float(v.mean()), int(v.size)], note="accessor: NaN and nodata pixels excluded; dask == numpy")
+    # accessor with integer rasters whose nodata sentinel is not representable in the (float32) output dtype, or in float32 at all:
+    # the sentinel identifies pixels of the INPUT and must be compared in the input's own type
+    for k in range(ctx.budget(6, 30)):
+        t, r, c = 2, rng.randint(3, 8), rng.randint(3, 8)
+        nz = rng.randint(1, 3)
+        idt, nd = rng.choice([("int32", 2147483647), ("int32", -2147483647), ("int32", 99999999), ("int64", 2 ** 40 + 1), ("float64", -9999.9), ("float64", 1e20 + 1e5)])
+        vals = np.array([[[nd if rng.random() < .25 else rng.randint(0, 5000) for _ in range(c)] for _ in range(r)] for _ in range(t)], dtype=idt)
+        zones = np.array([[rng.randrange(nz) if rng.random() > .1 else 255 for _ in range(c)] for _ in range(r)], dtype="uint8")
+        tt = np.arange(t).astype("datetime64[D]")
+        xd = xr.DataArray(vals, dims=("time", "y", "x"), coords={"time": tt}, attrs={"nodata": nd})
+        zd = xr.DataArray(zones, dims=("y", "x"), attrs={"nodata": 255})
+        xdd = xr.DataArray(da_.from_array(vals, chunks=(1, r, c)), dims=("time", "y", "x"), coords={"time": tt}, attrs={"nodata": nd})
+        for odt in ("float32", "float64"):
+            for backend, src in (("numpy", xd), ("dask", xdd)):
+                res = np.asarray(src.hdc.zonal.mean(zd, list(range(nz)), dtype=odt).compute())
+                ctx.case(("acc-sentinel", vals.tobytes(), idt, nd, odt, backend), sample=dict(accessor="zonal.mean", input_dtype=idt, nodata=nd, out=odt, backend=backend))
+                ctx.count("accessor, wide sentinels")
+                for kz in range(nz):
+                    for ti in range(t):
+                        v = vals[ti][zones == kz]
+                        v = v[v != np.array(nd, dtype=idt)]
+                        got = res[ti, kz]
+                        ok = (v.size == 0 and np.isnan(got[0]) and got[1] == 0) or (v.size > 0 and got[1] == v.size and abs(got[0] - v.astype(np.float64).mean()) <= 1e-6 * max(1.0, abs(v.astype(np.float64).mean())))
+                        if not ok:
+                            ctx.fail("zonal.mean", dict(data=vals[ti].tolist(), zones=zones.tolist(), nodata=nd, input_dtype=idt, dtype=odt, backend=backend, zone=kz, step=ti),
+                                     got.tolist(), [None if v.size == 0 else float(v.astype(np.float64).mean()), int(v.size)],
+                                     note="pixels equal to the nodata value of the input are excluded whatever the output dtype")
+                            break
     ctx.trusted += ["native model driver (Hdc/Model/Discrete.lean)", "harness/props/c16.py oracle (int64 NumPy sums)"]
 
 
